@@ -34,11 +34,11 @@ OPEN = [
      "example": "fn outer()->()->(int){ forward fn b()->int; fn a()->int{ b() } fn b()->int{ 5 } a }\nlet r = outer()();",
      "why_not_fixed": "see K-C01-01"},
     {"id": "K-C10-02", "property": "C10", "status": "open",
-     "sig": r"^no_return\|(num:(gamma|chisq)_distribution.*|(quantile|cdf)\(ContinuousDistribution, float\)->float)$",
+     "sig": r"^no_return\|(num:(gamma|chisq)_distribution\(.*\)\.(quantile|cdf)\(.*|(quantile|cdf)\(ContinuousDistribution, float\)->float)$",
      "what": "cdf / quantile of a gamma (or chi-squared) distribution with an astronomically large shape (gamma_distribution(1e19, 1.0).cdf(1e19), chisq_distribution(9223372036854775807).quantile(0.5)) does not return: statrs' incomplete gamma iteration grows with the shape (1e15 already takes seconds) and is consulted against no limit; same root as K-C10-01",
      "example": "let r0 = gamma_distribution(1.0e19, 1.0).cdf(1.0e19);"},
     {"id": "K-C10-01", "property": "C10", "status": "open",
-     "sig": r"^no_return\|(num:(poisson|binomial|hypergeometric|negative_binomial|geometric)_distribution.*|(quantile|cdf|pmf)\(DiscreteDistribution, (float|int)\)->(int|float))$",
+     "sig": r"^no_return\|(num:(poisson|binomial|hypergeometric|negative_binomial|geometric)_distribution\(.*\)\.(quantile|cdf|pmf)\(.*|(quantile|cdf|pmf)\(DiscreteDistribution, (float|int)\)->(int|float))$",
      "what": "cdf / quantile of a discrete distribution with an astronomically large parameter (poisson_distribution(1.8e19).quantile(0.5)) does not return: every cdf evaluation runs statrs' incomplete gamma / beta iteration, whose number of steps grows with the parameter and is consulted against no limit",
      "example": "let r0 = poisson_distribution(18446744073709551616.to_float()).quantile(0.5);",
      "why_not_fixed": "the loop is inside the statrs dependency; bounding it needs either a parameter ceiling (a behaviour change for valid inputs) or a different algorithm for large parameters"},
